@@ -423,12 +423,12 @@ def plan(tier, seed):
         shards.append({"name": "stress", "strategy": "stress", "workloads": 6, "reps": 60, "idx": 0})
     else:
         for i in range(16):
-            shards.append({"name": f"p1_{i:02d}", "strategy": "preempt1", "ntasks": 2, "workloads": 25, "max_schedules": 4000, "idx": i})
+            shards.append({"name": f"p1_{i:02d}", "strategy": "preempt1", "ntasks": 2, "workloads": 10, "max_schedules": 4000, "idx": i})
         for i in range(8):
-            shards.append({"name": f"p2_{i:02d}", "strategy": "preempt2", "ntasks": 2, "workloads": 25, "max_schedules": 2000, "idx": i})
+            shards.append({"name": f"p2_{i:02d}", "strategy": "preempt2", "ntasks": 2, "workloads": 10, "max_schedules": 2000, "idx": i})
         for i in range(8):
-            shards.append({"name": f"pct_{i:02d}", "strategy": "pct", "ntasks": 3, "workloads": 40, "max_schedules": 1500, "idx": i})
-        shards.append({"name": "stress", "strategy": "stress", "workloads": 40, "reps": 200, "idx": 0})
+            shards.append({"name": f"pct_{i:02d}", "strategy": "pct", "ntasks": 3, "workloads": 16, "max_schedules": 1500, "idx": i})
+        shards.append({"name": "stress", "strategy": "stress", "workloads": 30, "reps": 200, "idx": 0})
     # make sure the pairs the property names are always present
     pairs = [("program", "failing"), ("churn", "churn"), ("media", "media"), ("parse", "program"), ("failing", "failing"), ("program", "program"), ("churn", "media")]
     for s in shards:
